@@ -528,6 +528,7 @@ func DispatchShapeIn(p *load.Program, prel, vrel string) *report.RuleResult {
 	}
 	pos := p.Pos(parse.Pos())
 	info := pk.TypesInfo
+	evaluated := dispatchEval(p, prel, vrel, res)
 	// range vars are never reassigned anywhere in the module
 	for _, q := range []*packages.Package{pk, vk} {
 		for _, fd := range load.FuncDecls(q) {
@@ -544,6 +545,9 @@ func DispatchShapeIn(p *load.Program, prel, vrel string) *report.RuleResult {
 				return true
 			})
 		}
+	}
+	if evaluated {
+		return res // decided by evaluation; the structural path rule below is the fallback for code the evaluator cannot read
 	}
 	// config parameter and its Version field
 	var cfgObj types.Object
